@@ -178,6 +178,8 @@ def corruptions(e):
             c["d"][0] = _pert(c["d"][0], delta=1e-3)
             c["d"][1] = _pert(c["d"][1], delta=2e-3)
         mk(tip, ["transverse"])
+        mk(lambda c: c.__setitem__("i", dy(float("nan"))), ["field_finite"])      # arrived, intensity NaN
+        mk(lambda c: c["P"][1].__setitem__(2, [dy(float("nan")), dy(0.0)]), ["field_finite"])
     elif t == "surface":
         def swap(c):
             c["n1"], c["n2"] = c["n2"], c["n1"]
